@@ -51,7 +51,7 @@ func (o asmFullObs) diff(p asmFullObs) string {
 
 // c16Run: emit ops[:split] into A, Clone, ops[split:] into the clone, Append; compare with direct D.
 // slack is added to the exact remaining capacity of A's buffer (-1: Append must be refused).
-func c16Run(v asmVariant, ops []asmOp, split int, slack int) string {
+func c16Run(v asmVariant, ops []asmOp, split int, slack int, decoy bool) string {
 	const roomy = 512
 	d := newRealEmitter(v, roomy)
 	dm := newModelFor(v, roomy)
@@ -94,6 +94,36 @@ func c16Run(v asmVariant, ops []asmOp, split int, slack int) string {
 		}
 		if c.PC() != pcAfter[split+i] {
 			return fmt.Sprintf("after tail call #%d %s the clone's PC is $%06x, the direct emitter's is $%06x", split+i, op.name, c.PC(), pcAfter[split+i])
+		}
+	}
+	if decoy {
+		// a second clone of the same original receives other references and labels and is thrown away:
+		// whatever is done to it must not leak into the original or into the first clone
+		c2 := a.Clone(make([]byte, roomy))
+		for _, op := range c16DecoyOps() {
+			applyReal(c2, op)
+		}
+		// the original, finalized WITHOUT Append, must behave like an emitter that only ever got the head
+		a2 := newRealEmitter(v, roomy)
+		hm := newModelFor(v, roomy)
+		for _, op := range ops[:split] {
+			applyReal(a2, op)
+			op.model(hm)
+		}
+		c3 := a2.Clone(make([]byte, roomy))
+		for _, op := range ops[split:] {
+			applyReal(c3, op)
+		}
+		for _, op := range c16DecoyOps() {
+			applyReal(c3, op)
+		}
+		hf := hm.finalize()
+		herr := a2.Finalize()
+		if (herr == nil) != hf.ok {
+			return fmt.Sprintf("the original finalized without Append returns %v, a head-only emitter would give ok=%v: the clone leaked into it", herr, hf.ok)
+		}
+		if herr == nil && !bytes.Equal(a2.Bytes(), hf.patched) {
+			return fmt.Sprintf("the original finalized without Append holds % x, a head-only emitter % x", a2.Bytes(), hf.patched)
 		}
 	}
 	if df := observeFull(a, v.Listing).diff(snap); df != "" {
@@ -141,6 +171,11 @@ func c16Run(v asmVariant, ops []asmOp, split int, slack int) string {
 	return ""
 }
 
+func c16DecoyOps() []asmOp {
+	ops, _ := opsByName([]string{"BNE(a)", "BNE(b)", "JMP_abs(a)", "JMP_abs(b)", "BRA(a)", "NOP", "SEP(#$20)"})
+	return ops
+}
+
 func replayC16(raw json.RawMessage) (string, error) {
 	var h asmHistory
 	if err := json.Unmarshal(raw, &h); err != nil {
@@ -151,8 +186,10 @@ func replayC16(raw json.RawMessage) (string, error) {
 		return "", err
 	}
 	for _, slack := range []int{99, 1, 0, -1} {
-		if d := c16Run(h.Variant, ops, h.Split, slack); d != "" {
-			return fmt.Sprintf("%+v %v split %d slack %d: %s", h.Variant, h.Ops, h.Split, slack, d), fmt.Errorf("unexplained:clone-append")
+		for _, decoy := range []bool{false, true} {
+			if d := c16Run(h.Variant, ops, h.Split, slack, decoy); d != "" {
+				return fmt.Sprintf("%+v %v split %d slack %d decoy %v: %s", h.Variant, h.Ops, h.Split, slack, decoy, d), fmt.Errorf("unexplained:clone-append")
+			}
 		}
 	}
 	return "Clone/Append is indistinguishable from direct emission for this history and split", nil
@@ -174,9 +211,14 @@ func runC16(r *report.Run) {
 					slacks = []int{99, 0, 1, -1}
 				}
 				for _, slack := range slacks {
-					n++
-					if d := c16Run(v, ops, split, slack); d != "" {
-						return "unexplained:clone-append", fmt.Sprintf("%+v %v split %d slack %d: %s", v, historyNames(al, idx), split, slack, d), n, &asmHistory{Variant: v, Ops: historyNames(al, idx), Capacity: 512, Split: split}
+					for _, decoy := range []bool{false, true} {
+						if decoy && (slack != 99 || !withSlack) {
+							continue // decoy-clone variants: stage 1 only
+						}
+						n++
+						if d := c16Run(v, ops, split, slack, decoy); d != "" {
+							return "unexplained:clone-append", fmt.Sprintf("%+v %v split %d slack %d decoy-clone %v: %s", v, historyNames(al, idx), split, slack, decoy, d), n, &asmHistory{Variant: v, Ops: historyNames(al, idx), Capacity: 512, Split: split}
+						}
 					}
 				}
 			}
